@@ -7,5 +7,6 @@ MCLabelSets == {<<>>, <<"x">>, <<"x", "y">>}
 \* payload table: the Go replayer maps (vk, vn) to concrete values, traversals and raw tokens
 MCVals == {[vk |-> "val", vn |-> 0], [vk |-> "val", vn |-> 1],
            [vk |-> "trav", vn |-> 0], [vk |-> "raw", vn |-> 0]}
-MCInits == {"empty", "parsed"}
+MCInits == {"empty", "parsed", "oneline", "emptyblk"}
+MCInitsParsed == {"parsed"}
 =============================================================================
